@@ -147,7 +147,15 @@ func init() {
 			for _, scheme := range versSchemes {
 				eco := schemeEco[scheme]
 				ts := versVersionTemplates(scheme, tier)
+				tsAll := ts
 				for k := 1; k <= kmax; k++ {
+					ts := tsAll
+					if scheme == "maven" && k >= 2 && len(ts) > 2 {
+						// maven with a qualified bound or probe among two or more constraints exceeds the 900 s
+						// budget / 50 000 merged paths (measured); qualified maven versions with k <= 2 are
+						// covered by the 'qual' configurations below
+						ts = ts[:2]
+					}
 					for _, pat := range versPatterns(k) {
 						// version templates: quick = the first template for all, plus a mixed row
 						combos := [][]string{}
@@ -157,7 +165,6 @@ func init() {
 						}
 						combos = append(combos, base)
 						if k <= 2 || (tier == "thorough" && scheme != "maven") {
-							// (maven with a qualified bound among three constraints exceeds the 900 s budget)
 							mixed := make([]string, k)
 							for i := range mixed {
 								mixed[i] = ts[(i+1)%len(ts)]
@@ -293,7 +300,7 @@ func init() {
 			return out
 		},
 		Bounds: func(tier string) string {
-			return "11 schemes; every VERS-valid comparator sequence with k <= 3 constraints, and for k = 4 the two-pair sequences (lower upper lower upper, all 16 inclusiveness combinations; thorough adds one pair with an = point and a != exclusion in every position); for k = 5..8 four (quick) / eight (thorough) sequences: lists of '=' points, lists of '!=' exclusions, three and four lower/upper pairs, mixed; versions and probes from 2 (quick) / 3 (thorough) small numeric templates per scheme; pypi: final/post releases, plus k <= 2 ranges with pre-release bounds and pre-/dev-release probes against the PEP 440 default; k <= 2 with a two-letter qualifier in either letter case on every bound and on the probe"
+			return "11 schemes; every VERS-valid comparator sequence with k <= 3 constraints, and for k = 4 the two-pair sequences (lower upper lower upper, all 16 inclusiveness combinations; thorough adds one pair with an = point and a != exclusion in every position); for k = 5..8 four (quick) / eight (thorough) sequences: lists of '=' points, lists of '!=' exclusions, three and four lower/upper pairs, mixed; versions and probes from 2 (quick) / 3 (thorough) small numeric templates per scheme; pypi: final/post releases, plus k <= 2 ranges with pre-release bounds and pre-/dev-release probes against the PEP 440 default; k <= 2 with a two-letter qualifier in either letter case on every bound and on the probe; maven: for k >= 2 the generic rows use numeric bounds and probes only (a qualified maven version among several constraints exceeds the per-configuration budget), qualified ones are covered for k <= 2 by the qualifier rows"
 		},
 		Assume: []string{"scheme -> ecosystem routing table is spec-side (DESIGN B.5)", "the interval denotation versSem in harness/pkg/zzh/vers.go is the spec-side reading of the VERS specification"},
 	})
